@@ -74,13 +74,13 @@ func c30(r *sim.R) *sim.Violation {
 			if rec.start != -1 {
 				continue
 			}
-			rec.start = sc.Steps
+			rec.start = sc.StepCount()
 			w := goDB.NewDBWriter(wdb, rec.iface, enc)
 			if err := w.Write(model.ToAggFlowMap(rec.blk.Flows), capturetypes.CaptureStats{Dropped: rec.blk.Traffic.Drops}, rec.blk.TS); err != nil {
 				werr = fmt.Errorf("write-out of block %d: %w", rec.blk.TS, err)
 				return
 			}
-			rec.end = sc.Steps
+			rec.end = sc.StepCount()
 		}
 	}()
 	type qres struct {
@@ -98,7 +98,7 @@ func c30(r *sim.R) *sim.Violation {
 		defer close(rdone)
 		sc.Yield("r", "start")
 		for i := 0; i < nQ; i++ {
-			qr := &qres{start: sc.Steps}
+			qr := &qres{start: sc.StepCount()}
 			if t.Draw(3) == 0 {
 				qr.kind = "listing"
 				md, err := dbcheck.Listing(rdb, "eth0", 1, 4102444800)
@@ -117,7 +117,7 @@ func c30(r *sim.R) *sim.Violation {
 					}
 				}
 			}
-			qr.end = sc.Steps
+			qr.end = sc.StepCount()
 			results = append(results, qr)
 		}
 	}()
